@@ -8,7 +8,6 @@ import (
 	"strings"
 	"sync"
 	"sync/atomic"
-	"time"
 
 	"verif/harness/model"
 )
@@ -129,7 +128,7 @@ func checkC02(ctx *Ctx) {
 	ctx.Assume("process death at an instant leaves exactly what another process can read at that instant (POSIX), so a directory image taken inside the failpoint stands for a SIGKILL there",
 		"power loss = the log cut back to the size it had at the last fsync (unsynced suffix lost)",
 		"virtual clock; the clock is advanced between stop and restart")
-	if ctx.Fork(8, "", 15*time.Minute) {
+	if ctx.Fork(8, "", ctx.Watchdog()) {
 		return
 	}
 	quietLogs()
